@@ -718,9 +718,22 @@ def emit_fn(spec, impl_item, linemap_cb):
             if [t[1] for t in toks[z:z + len(ptoks)]] == ptoks:
                 hits.append(z)
             z += 1
-        if len(hits) != 1 or ptoks[-1] != ';':
-            raise AnchorLost('hintafter: statement `%s` occurs %d times in fn %s' % (pat[:60], len(hits), spec.name))
-        bed.insert(toks[hits[0] + len(ptoks) - 1][3], block(blocktxt, '%s#hint%d' % (spec.name, hn), 'hint', None))
+        # optional ordinal prefix "[k]" selects the k-th of exactly-as-many-as-stated occurrences: "[2/2] tokens"
+        want = 1
+        total = 1
+        m_ = re.match(r'^\[(\d+)/(\d+)\]\s*(.*)$', pat, re.S)
+        if m_:
+            want, total = int(m_.group(1)), int(m_.group(2))
+            ptoks = [t[1] for t in code_tokens(lex(m_.group(3)))]
+            hits = []
+            z = ba + 1
+            while z + len(ptoks) <= bb:
+                if [t[1] for t in toks[z:z + len(ptoks)]] == ptoks:
+                    hits.append(z)
+                z += 1
+        if len(hits) != total or ptoks[-1] != ';':
+            raise AnchorLost('hintafter: statement `%s` occurs %d times in fn %s (expected %d)' % (pat[:60], len(hits), spec.name, total))
+        bed.insert(toks[hits[want - 1] + len(ptoks) - 1][3], block(blocktxt, '%s#hint%d' % (spec.name, hn), 'hint', None))
     # T4 rename self -> self_
     if 'T4' in rules:
         for z in range(ba + 1, bb):
